@@ -384,7 +384,7 @@ func genCase(t *rapid.T) Case {
 }
 
 func TestC16(t *testing.T) {
-	ev.Rapid(t, rec, "histories", rec.Scale(15000, 800000), genCase, func(c Case) *ev.Failure {
+	ev.Rapid(t, rec, "histories", rec.Scale(15000, 6000000), genCase, func(c Case) *ev.Failure {
 		st := &Stats{}
 		f := runCase(c, st)
 		cl := []string{}
